@@ -357,6 +357,22 @@ fn rewrite_case(_ctx: &Ctx, case: u64, r: &mut Rng, rep: &mut Report) {
             }
         }
     }
+    // one base name used for a directory in one place and for a plain file in another: a directory-only glob (`!name/`)
+    // must take the directory and leave the file
+    let dir_only_name: Option<Vec<u8>> = if r.chance(1, 2) {
+        let name = b"cachedir".to_vec();
+        let e_dir = crate::model::Entry { kind: Kind::Dir, mode: 0o755, mtime: (1_650_000_900, 0), hardlink: None };
+        let e_file = |n: usize, r: &mut Rng| crate::model::Entry { kind: Kind::File(std::sync::Arc::new(r.bytes(n))), mode: 0o644, mtime: (1_650_000_901, 0), hardlink: None };
+        h.model.insert(vec![name.clone()], e_dir.clone());
+        let f1 = e_file(40, r);
+        h.model.insert(vec![name.clone(), b"inside".to_vec()], f1);
+        h.model.insert(vec![b"holder".to_vec()], e_dir);
+        let f2 = e_file(55, r);
+        h.model.insert(vec![b"holder".to_vec(), name.clone()], f2);
+        Some(name)
+    } else {
+        None
+    };
     // a twin: one directory cloned with all its metadata to a second place, so that the same tree id occurs under two
     // paths and a path-anchored exclude must hit only one of them
     let mut twin: Option<(PathKey, PathKey)> = None;
@@ -427,6 +443,16 @@ fn rewrite_case(_ctx: &Ctx, case: u64, r: &mut Rng, rep: &mut Report) {
             }
         }
     }
+    let mut dir_only: Vec<Vec<u8>> = Vec::new();
+    if let Some(name) = &dir_only_name {
+        let dir_there = matches!(target_model.entries.get(&vec![name.clone()]).map(|e| &e.kind), Some(Kind::Dir));
+        let file_there = matches!(target_model.entries.get(&vec![b"holder".to_vec(), name.clone()]).map(|e| &e.kind), Some(Kind::File(_)));
+        if dir_there && file_there && r.chance(2, 3) {
+            dir_only.push(name.clone());
+            globs.push(format!("!{}/", String::from_utf8_lossy(name)));
+            rep.count("rewrite_directory_only_globs", 1);
+        }
+    }
     if globs.is_empty() {
         return;
     }
@@ -435,7 +461,9 @@ fn rewrite_case(_ctx: &Ctx, case: u64, r: &mut Rng, rep: &mut Report) {
     for (k, e) in &target_model.entries {
         let mut full = vec![b"r".to_vec()];
         full.extend(k.iter().cloned());
-        if !excluded(&full, &pats) {
+        // `!name/`: a DIRECTORY of that name at any depth goes with everything below it; a file of that name stays
+        let hit_dir_only = dir_only.iter().any(|name| (1..=k.len()).any(|i| &k[i - 1] == name && matches!(target_model.entries.get(&k[..i].to_vec()).map(|e| &e.kind), Some(Kind::Dir))));
+        if !excluded(&full, &pats) && !hit_dir_only {
             let _ = expected.entries.insert(k.clone(), e.clone());
         }
     }
@@ -688,7 +716,7 @@ pub fn run(ctx: &Ctx) -> (Report, Meta) {
     }
     let meta = Meta {
         level: "exploration",
-        rule: "copy: generated source and destination repositories with different keys/configs (destination empty / holding part of the content / unrelated content / having received the snapshots before, forgotten some and quick-pruned; tree-data id collisions), every copied snapshot must read back identically in the destination, destination check(read_data) clean, second copy writes nothing. merge: 2-4 snapshots of diverging generated trees (names incl. escaped bytes and invalid UTF-8) merged with last_modified_node vs a reference merge on models (newest wins, directories merged), result strictly name-ordered, inputs untouched; cases with equal-mtime ties between different versions are skipped as ambiguous. rewrite: excluding globs in three forms (!/r/a/b anchored literal, !*.tmp base-name suffix, !/r/dir whole directory) vs (model minus excluded paths), forget on/off, original snapshot kept/removed accordingly. repair snapshots: undamaged => zero storage events; after losing a pack + repair_index => every intact pack is still indexed with the same blobs, no more files are given up than used a blob of the lost pack, every file kept without the .repaired suffix has its original bytes, all snapshots readable, check clean. distinct_nontrivial = distinct class labels per sub-check".to_string(),
+        rule: "copy: generated source and destination repositories with different keys/configs (destination empty / holding part of the content / unrelated content / having received the snapshots before, forgotten some and quick-pruned; tree-data id collisions), every copied snapshot must read back identically in the destination, destination check(read_data) clean, second copy writes nothing. merge: 2-4 snapshots of diverging generated trees (names incl. escaped bytes and invalid UTF-8) merged with last_modified_node vs a reference merge on models (newest wins, directories merged), result strictly name-ordered, inputs untouched; cases with equal-mtime ties between different versions are skipped as ambiguous. rewrite: excluding globs in four forms (!/r/a/b anchored literal, !*.tmp base-name suffix, !/r/dir whole directory, !name/ directory-only base name with a plain file of the same name elsewhere) vs (model minus excluded paths), forget on/off, original snapshot kept/removed accordingly. repair snapshots: undamaged => zero storage events; after losing a pack + repair_index => every intact pack is still indexed with the same blobs, no more files are given up than used a blob of the lost pack, every file kept without the .repaired suffix has its original bytes, all snapshots readable, check clean. distinct_nontrivial = distinct class labels per sub-check".to_string(),
         exhaustive: false,
         assumptions: vec!["rewrite patterns use a glob-neutral alphabet for literals; whitelist patterns, character classes and escapes are not generated".to_string()],
     };
